@@ -103,11 +103,19 @@ pub fn unary(ctx: &mut Ctx) {
     }
 }
 
+/// floats that a tolerant or textual comparison would merge (one ulp apart; equal to three decimals)
+fn atoms_near() -> Vec<Tree> {
+    let n = crate::alpha::near_floats();
+    vec![Tree::F(n[0]), Tree::F(n[1]), Tree::F(n[2]), Tree::F(n[3]), Tree::I(1)]
+}
+
 pub fn binary(ctx: &mut Ctx) {
+    let near = ctx.family == "near";
     let mut real = Real::new();
-    let (st, su) = if ctx.tier_thorough { (5, 3) } else { (4, 3) };
-    let ts = trees_up_to(st, &atoms3());
-    let us = trees_up_to(su, &atoms3());
+    let (st, su) = if near { (3, 2) } else if ctx.tier_thorough { (5, 3) } else { (4, 3) };
+    let atoms = if near { atoms_near() } else { atoms3() };
+    let ts = trees_up_to(st, &atoms);
+    let us = trees_up_to(su, &atoms);
     ctx.extra.push(("pairs".into(), crate::core::J::Int((ts.len() * us.len()) as i64)));
     for t in &ts {
         for u in &us {
@@ -405,7 +413,7 @@ pub fn run(ctx: &mut Ctx) {
         "big" => big(ctx),
         "deep" => deep(ctx),
         "unary" => unary(ctx),
-        "binary" => binary(ctx),
+        "binary" | "near" => binary(ctx),
         "api" => api(ctx),
         f => panic!("unknown family {}", f),
     }
